@@ -99,3 +99,39 @@ Proof.
   - now apply Forall_firstn.
   - apply IH. now apply Forall_skipn.
 Qed.
+
+Inductive Forall3 {A B C} (R : A -> B -> C -> Prop) : list A -> list B -> list C -> Prop :=
+| Forall3_nil : Forall3 R [] [] []
+| Forall3_cons x y z a b c : R x y z -> Forall3 R a b c -> Forall3 R (x :: a) (y :: b) (z :: c).
+
+Lemma map3_Forall3 {A B C} (f : A -> B -> C -> bool) a : forall b c,
+  length a = length b -> length c = length b ->
+  Forall (fun x => x = false) (map3 f a b c) -> Forall3 (fun x y z => f x y z = false) a b c.
+Proof.
+  induction a as [|x a IH]; intros [|y b] [|z c] H1 H2 HF; cbn in *; try discriminate; constructor.
+  - now inversion HF.
+  - apply IH; try lia. now inversion HF.
+Qed.
+
+Lemma existsb_id_false l : existsb (fun b : bool => b) l = false -> Forall (fun x => x = false) l.
+Proof.
+  induction l as [|b l IH]; cbn; intro H; constructor.
+  - now apply orb_false_iff in H.
+  - apply IH. now apply orb_false_iff in H.
+Qed.
+
+Lemma Forall2_of_all {A B} (R : A -> B -> Prop) (a : list A) : forall (b : list B),
+  length a = length b -> (forall x y, In x a -> In y b -> R x y) -> Forall2 R a b.
+Proof.
+  induction a as [|x a IH]; intros [|y b] Hl H; cbn in *; try discriminate; constructor.
+  - apply H; now left.
+  - apply IH; [lia|]. intros; apply H; now right.
+Qed.
+
+Lemma NoDup_app_one {A} (l : list A) c : NoDup l -> ~ In c l -> NoDup (l ++ [c]).
+Proof.
+  induction l as [|x l IH]; cbn; intros Hn Hi; [constructor; [intros []|constructor]|].
+  inversion Hn; subst. constructor.
+  - intro H. apply in_app_or in H as [H|[H|[]]]; [contradiction|]. subst. apply Hi. now left.
+  - apply IH; [assumption|]. intro H. apply Hi. now right.
+Qed.
